@@ -552,11 +552,11 @@ static size_t safec_ftoa(out_fct_type out, const char *funcname, char *buffer,
 
     if (len < PRINTF_FTOA_BUFFER_SIZE) {
         if (negative) {
-            buf[len++] = '-';
+            buf[off + len++] = '-';
         } else if (flags & FLAGS_PLUS) {
-            buf[len++] = '+'; // ignore the space if the '+' exists
+            buf[off + len++] = '+'; // ignore the space if the '+' exists
         } else if (flags & FLAGS_SPACE) {
-            buf[len++] = ' ';
+            buf[off + len++] = ' ';
         }
     }
 
